@@ -348,6 +348,22 @@ func c01Adapters(r *core.Rand, k1, k5 *oprf.PrivateKey, rk *rsa.PrivateKey) []*c
 }
 
 func c01Sessions(c *core.Ctx, k1, k5 []*oprf.PrivateKey, rk []*rsa.PrivateKey) {
+	// token keys whose modulus is 256 octets but only 2041 / 2045 / 2047 bits long, for the RSA-based types
+	for oi, ok := range OddRSAKeys() {
+		for ai := 1; ai < 4; ai += 2 {
+			if !c.Next() {
+				continue
+			}
+			r := c.CaseRng()
+			a := c01Adapters(r, k1[0], k5[0], ok)[ai]
+			before := c.ViolationCount()
+			c01RunSession(c, a, r, c.Pick(4, 10), fmt.Sprintf("modulus-%d-bits", ok.N.BitLen()))
+			if c.ViolationCount() == before {
+				c.Class("runs_with_moduli_shorter_than_2048_bits")
+				c.Distinctf("odd-modulus:%d:%s", oi, a.name)
+			}
+		}
+	}
 	n := c.Pick(6, 300)
 	for s := 0; s < n; s++ {
 		for ai := 0; ai < 4; ai++ {
